@@ -180,7 +180,16 @@ def D_OK(c, old, app):
     """whatever happened, no callback other than on_error was delivered after this run's on_close."""
     done0, done1 = z(old.getf(app, "has_done_teardown"), "bool"), z(c.getf(app, "has_done_teardown"), "bool")
     D0, D1 = z(old.ghost["D"]), z(c.ghost["D"])
-    return z3.And(z3.Implies(z3.And(done1, done0), D1 <= z3.If(D0 > 0, D0, 0)), z3.Implies(z3.And(done1, z3.Not(done0)), D1 <= 0))
+    base = z3.And(z3.Implies(z3.And(done1, done0), D1 <= z3.If(D0 > 0, D0, 0)), z3.Implies(z3.And(done1, z3.Not(done0)), D1 <= 0))
+    if "teardowns" not in c.ghost or "teardowns" not in old.ghost or "live_ping_threads" not in c.ghost:
+        return base
+    # teardown accounting: the once-only flag never goes back, the counter moves exactly when the flag is set, and once the run
+    # is torn down it stays without socket and without ping thread (only setSock creates either, and only before teardown)
+    def ended(v):
+        return z3.Implies(z(v.getf(app, "has_done_teardown"), "bool"), z3.And(zn(v.getf(app, "sock")), z(v.ghost["live_ping_threads"], "int") == 0))
+    return z3.And(base, z3.Implies(done0, done1),
+                  z(c.ghost["teardowns"]) == z(old.ghost["teardowns"]) + z3.If(z3.And(done1, z3.Not(done0)), 1, 0),
+                  z3.Implies(ended(old), ended(c)))
 
 
 def log_append(log, cb, args):
@@ -563,7 +572,8 @@ def install_teardown(e):
         app = td_app(a)
         return z3.And(z3.Not(z(old.getf(app, "has_done_teardown"), "bool")), td_done(c, app),
                       z(c.getf(app, "has_errored"), "bool") == z(old.getf(app, "has_errored"), "bool"), APPINV(c, app),
-                      z(c.ghost["live_ping_threads"], "int") == 0, z(c.ghost["D"]) == 0)
+                      z(c.ghost["live_ping_threads"], "int") == 0, z(c.ghost["D"]) == 0,
+                      z(c.ghost["teardowns"]) == z(old.ghost["teardowns"]) + 1)
 
     def td_entry(c, a):
         pass
@@ -737,7 +747,10 @@ def install_loop(e):
             oc = old.getf(app, "on_close")
             exp = dl_err if unopt(oc) is None else z3.If(z3.Or(done0, zn(oc)), dl_err, Log.snoc(dl_err, mk_event(unopt(oc).id, (None, None))))
             return z3.And(base, z(c.ghost["dl"]) == exp, z(c.getf(app, "has_done_teardown"), "bool"),
-                          z(c.ghost["resched"]) == z(old.ghost["resched"]))
+                          z(c.ghost["resched"]) == z(old.ghost["resched"]),
+                          # teardown ran here unless it had run before: counted once, and it dropped the socket
+                          z(c.ghost["teardowns"]) == z(old.ghost["teardowns"]) + z3.If(done0, 0, 1),
+                          z3.Implies(z3.Not(done0), zn(c.getf(app, "sock"))))
         # reconnect configured: no teardown, no on_close; an external dispatcher is asked for exactly one later attempt
         custom = env["custom_dispatcher"]
         if custom and c.mode != "assume":
@@ -790,6 +803,7 @@ def install_loop(e):
                    cases=[(f"reconnect={'on' if r else 'off'},{'external' if cu else 'builtin'}-dispatcher", hd_case(r, cu))
                           for r in (False, True) for cu in (False, True)],
                    requires=lambda c, a: APPINV(c, app_of(a)), ensures=hd_post, havoc=hd_havoc,
+                   normal_when=lambda c, old, a: z3.BoolVal(not is_interrupt(a)),
                    raises=[(KeyboardInterrupt, lambda c, old, a: z3.BoolVal(True), hd_interrupt), (SystemExit, None, hd_interrupt),
                            (Exception, lambda c, old, a: z3.Not(zn(old.getf(app_of(a), "on_error"))), hd_cb_exc)],
                    modifies=lambda c, a: td.modifies(c, dict(a, close_frame=None)) + [(app_of(a), "has_errored"), "ghost:resched", "ghost:resched_delay"],
@@ -1045,7 +1059,7 @@ def install_run2(e):
     app_of, env_of = _app_of, lambda a: (a["$closure"] if isinstance(a["$closure"], dict) else a["$closure"].locals)
     SS_GH = ["dl", "raw", "D", "teardowns", "live_ping_threads", "closed_handles", "opened_handles", "attempts", "resched", "auto_close", "wire",
              "tx_calls", "draws", "rpos", "rx_calls", "fstart", "lastf", "clock", "rx", "m_open", "m_op", "m_data", "selects", "checks", "reads",
-             "last_attempt_clock", "pong_acc", "npings"]
+             "last_attempt_clock", "pong_acc", "npings", "last_seq_ok", "seqf"]
 
     def havoc_all(c, app, old):
         for g in SS_GH:
@@ -1078,8 +1092,12 @@ def install_run2(e):
     def ss_req(c, a):
         app = app_of(a)
         # a first attempt starts without a socket; a reconnect may find the previous one
-        return z3.And(APPINV(c, app), z3.Or(z(a["reconnecting"], "bool"), zn(c.getf(app, "sock"))),
+        base = z3.And(APPINV(c, app), z3.Or(z(a["reconnecting"], "bool"), zn(c.getf(app, "sock"))),
                       z(c.ghost["live_ping_threads"], "int") == 0)
+        if not env_of(a)["custom_dispatcher"]:
+            # the built-in loop makes an attempt only while the run has not been torn down (keep_running)
+            base = z3.And(base, z3.Not(z(c.getf(app, "has_done_teardown"), "bool")))
+        return base
 
     def ss_post(c, old, a, res):
         app, env = app_of(a), env_of(a)
@@ -1119,6 +1137,18 @@ def install_run2(e):
     e.after_call[("WebSocketApp.run_forever.<locals>.setSock", "connect")] = \
         lambda c, fr, r: c.ghost.__setitem__("$dl_at_connect", c.ghost["dl"])
 
+    def open_callback_first(c, fr, r):
+        """ghost assertion where the open callback has returned: since the connection was established exactly one callback was
+        delivered - on_reconnect for a re-established connection when it is set, else on_open (C13, C15)."""
+        if "$dl_at_connect" not in c.ghost or fr.parent is None:
+            return
+        app = fr.parent.locals["self"]
+        dl0 = z(c.ghost["$dl_at_connect"])
+        orc, oo = c.getf(app, "on_reconnect"), c.getf(app, "on_open")
+        use_rc = z3.And(z(fr.locals["reconnecting"], "bool"), z3.Not(zn(orc)))
+        c.prove("open-callback.first-and-once", z(c.ghost["dl"]) == z3.If(use_rc, log_append(dl0, orc, ()), log_append(dl0, oo, ())), None)
+    e.after_call[("WebSocketApp.run_forever.<locals>.setSock", "_callback")] = open_callback_first
+
 
 def install_run3(e):
     import websocket._dispatcher as disp_mod
@@ -1146,7 +1176,7 @@ def install_run3(e):
 
     def rc_req(c, a):
         app = rc_app(c, a)
-        return z3.And(APPINV(c, app), z(c.ghost["live_ping_threads"], "int") == 0)
+        return z3.And(APPINV(c, app), z(c.ghost["live_ping_threads"], "int") == 0, z3.Not(z(c.getf(app, "has_done_teardown"), "bool")))
 
     def rc_post(c, old, a, res):
         app = rc_app(c, a)
@@ -1154,10 +1184,11 @@ def install_run3(e):
                       # the attempt comes after the interval
                       z(c.ghost["last_attempt_clock"], "real") >= z(old.ghost["clock"], "real") + z(a["seconds"], "real"),
                       z3.Implies(z(c.getf(app, "keep_running"), "bool"), z(c.ghost["live_ping_threads"], "int") == 0),
-                      z3.Implies(z(c.getf(app, "has_done_teardown"), "bool"), z3.Not(z(c.getf(app, "keep_running"), "bool"))))
+                      z3.Implies(z(c.getf(app, "has_done_teardown"), "bool"), z3.Not(z(c.getf(app, "keep_running"), "bool"))),
+                      D_OK(c, old, app))
 
     def rc_exc(c, old, a, exc):
-        return APPINV(c, rc_app(c, a))
+        return z3.And(APPINV(c, rc_app(c, a)), D_OK(c, old, rc_app(c, a)))
 
     def rc_havoc(c, a, old, k):
         ss.havoc(c, {"$closure": {"self": rc_app(c, a)}, "reconnecting": True}, old, k)
@@ -1174,7 +1205,11 @@ def install_run3(e):
     def ss_post2(c, old, a, res):
         app = app_of(a)
         done0, done1 = z(old.getf(app, "has_done_teardown"), "bool"), z(c.getf(app, "has_done_teardown"), "bool")
-        extra = [z3.Implies(z(c.getf(app, "keep_running"), "bool"), z(c.ghost["live_ping_threads"], "int") == 0),
+        # built-in loop: setSock returns only when that connection is over, so a run that goes on has no ping thread left;
+        # with an external dispatcher setSock returns as soon as the read callback is registered (the connection lives on)
+        builtin_only = [] if env_of_(a)["custom_dispatcher"] else [
+            z3.Implies(z(c.getf(app, "keep_running"), "bool"), z(c.ghost["live_ping_threads"], "int") == 0)]
+        extra = builtin_only + [
                  z(c.ghost["teardowns"]) == z(old.ghost["teardowns"]) + z3.If(z3.And(done1, z3.Not(done0)), 1, 0),
                  z3.Implies(done0, done1)] + ([] if env_of_(a)["custom_dispatcher"] else [
                      z3.Implies(done1, z3.And(zn(c.getf(app, "sock")), z(c.ghost["live_ping_threads"], "int") == 0))]) + [
@@ -1274,12 +1309,32 @@ def install_run_forever(e):
                       # a connection is attempted only with consistent settings and no socket open
                       z3.Not(c.ghost["$bad_settings"]))
     e.cut_calls[("WebSocketApp.run_forever", "WebSocketApp.run_forever.<locals>.setSock")] = entry_state
+    # the rest of run_forever (reconnect loop, except / finally, return value) is verified against setSock's contract; the case with
+    # the built-in reconnect loop is expensive (about 120 CPU-minutes) and is cut after the entry state in the quick tier
+    e.cut_continue[("WebSocketApp.run_forever", "WebSocketApp.run_forever.<locals>.setSock")] = \
+        lambda eng, c: eng.tier == "thorough" or not c.fn_label.endswith("reconnect=on,builtin-dispatcher")
+
+    def rf_loop_inv(c, fr, entry):
+        """reconnect loop of the built-in dispatcher: between attempts the run is either still going (no ping thread, not torn
+        down) or was torn down exactly once in this run (no socket, no ping thread, on_close delivered last)."""
+        app = fr.locals["self"]
+        done = z(c.getf(app, "has_done_teardown"), "bool")
+        return z3.And(APPINV(c, app),
+                      z(c.ghost["teardowns"]) == z(c.ghost["$teardowns0"]) + z3.If(done, 1, 0),
+                      z3.Implies(done, z3.And(zn(c.getf(app, "sock")), z(c.ghost["live_ping_threads"], "int") == 0, z(c.ghost["D"]) <= 0)),
+                      z3.Implies(z(c.getf(app, "keep_running"), "bool"), z(c.ghost["live_ping_threads"], "int") == 0))
+
+    def rf_loop_havoc(c, fr, entry):
+        ss.havoc(c, {"$closure": {"self": fr.locals["self"]}, "reconnecting": True}, entry, 0)
+    e.loop("WebSocketApp.run_forever", 0, inv=rf_loop_inv, havoc=rf_loop_havoc,
+           modifies=lambda c, fr: SS_MODS(c, {"$closure": {"self": fr.locals["self"]}}))
 
     e.add(Contract(P + "WebSocketApp.run_forever",
                    cases=[(f"reconnect={'on' if r else 'off'},{'external' if cu else 'builtin'}-dispatcher", rf_case(r, cu))
                           for r in (False, True) for cu in (False, True)],
                    requires=rf_req, ensures=rf_post, result=lambda c, a: c.fresh("bool", "errored"),
                    ghost_entry=lambda c, a: (c.ghost.__setitem__("$attempts0", c.ghost["attempts"]),
+                                             c.ghost.__setitem__("$teardowns0", c.ghost["teardowns"]),
                                              c.ghost.__setitem__("$bad_settings", bad_settings(c, c, a))),
                    havoc=lambda c, a, old, k: ss.havoc(c, {"$closure": {"self": a["self"]}, "reconnecting": False}, old, 0),
                    modifies=lambda c, a: SS_MODS(c, {"$closure": {"self": a["self"]}}),
